@@ -238,6 +238,33 @@ def run(ctx):
         b = tob(text)
         cl.append("%d %d %d %d %d %s %s %d %s" % (infmt, crng.below(2), crng.below(2), crng.below(3), hasS, idx(rs), idx(cs),
                                                  len(b), " ".join(map(str, b))))
+    # double-valued files through cmr-matrix -d: support / signed support with tolerance 1e-9 (values as decimal tokens
+    # with fractions and exponents; tiny nonzero values are dropped by the tool and must be dropped consistently)
+    dl = []
+    drng = ctx.rng.fork("climatd")
+    toks = ["0", "0", "0", "1", "-1", "2.5", "-0.75", "1e-12", "-3e-10", "9.9e-10", "1e-9", "1.5e-9", "-2e-9", "1E3", "-4.0e+2",
+            "0.000001", "123456", "-0.0", "7.", ".5", "3e-13", "1e-300"]
+    for _ in range(800 if q else 20000):
+        m, n = 1 + drng.below(7), 1 + drng.below(7)
+        if drng.below(12) == 0:
+            m, n = 8 + drng.below(20), 8 + drng.below(20)
+        dens = 2 + drng.below(8)
+        E = [[(drng.choice(toks) if drng.below(10) < dens else "0") for _ in range(n)] for _ in range(m)]
+        infmt = drng.below(2)
+        if infmt == 0:
+            text = "%d %d\n" % (m, n) + "".join(" ".join(r) + "\n" for r in E)
+        else:
+            tr = [(i + 1, j + 1, E[i][j]) for i in range(m) for j in range(n) if E[i][j] != "0" or drng.below(15) == 0]
+            drng.shuffle(tr)
+            text = "%d %d %d\n" % (m, n, len(tr)) + "".join("%d %d %s\n" % t for t in tr)
+        hasS = 1 if drng.below(4) == 0 else 0
+        rs = drng.shuffle(list(range(m)))[:drng.below(m + 1)] if hasS else []
+        cs = drng.shuffle(list(range(n)))[:drng.below(n + 1)] if hasS else []
+        b = tob(text)
+        dl.append("%d %d %d %d %d %s %s %d %s" % (infmt, drng.below(2), drng.below(2), 1 + drng.below(2), hasS, idx(rs), idx(cs),
+                                                 len(b), " ".join(map(str, b))))
+    clilib.stream(ctx, "climatd", dl, "cmr-matrix -d: (signed) support of double-valued input files with tolerance 1e-9",
+                  lambda c: gen.CLIMAT_CODES.get(c, str(c)))
     clilib.stream(ctx, "climat", cl, "cmr-matrix: output bytes vs. slice / transpose / support of the parsed input",
                   lambda c: gen.CLIMAT_CODES.get(c, str(c)), keyfn=climat_key)
     ctx.stream("edgelist", gen.edgelist_lines(ctx.rng.fork("edgelist"), 3000 if q else 60000),
